@@ -288,3 +288,9 @@ def candidates(case):
             c["history"] = list(hist)
             c["history"][i] = dict(e, policy="fifo", release=False)
             yield c
+
+
+FINDING_ABLATIONS = {
+    "F19": (H.pre_unify_flip, H.abl_unify_flip),
+    "F20": (H.pre_userfn, H.ablate_userfns),
+}
